@@ -391,7 +391,8 @@ inline Report run_sharded(const Options& opt, const std::string& label, const Bo
       std::string sig2 = ok2 ? "no-failure" : crash_signature(st2, err2);
       if (sig2 != sig) {
         // a hang under load may pass solo with the longer limit: not a violation; anything else is nondeterminism
-        if (sig.rfind("crash:hang", 0) == 0 && ok2) { total.count("slow_cases_not_hangs"); S.skip.insert(cidx); S.pid = launch(s, -1, s); continue; }
+        // (SIGKILL comes from outside the process - the kernel's OOM killer under memory pressure - and is not a property of the case)
+        if ((sig.rfind("crash:hang", 0) == 0 || sig.rfind("crash:signal9", 0) == 0) && ok2) { total.count(sig.rfind("crash:hang", 0) == 0 ? "slow_cases_not_hangs" : "workers_killed_from_outside"); S.skip.insert(cidx); S.pid = launch(s, -1, s); continue; }
         fprintf(stderr, "HARNESS-NONDETERMINISM: case %llu [%s] first %s then %s\n", (unsigned long long)cidx, desc.c_str(), sig.c_str(), sig2.c_str());
         exit(2);
       }
